@@ -3,16 +3,16 @@
 
 bool g_c01 = true, g_c02 = true;
 
-IRunner* c01_make_0(int l, int i, bool bin, int mode);
-IRunner* c01_make_1(int l, int i, bool bin, int mode);
-IRunner* c01_make_2(int l, int i, bool bin, int mode);
-IRunner* c01_make_3(int l, int i, bool bin, int mode);
+IRunner* c01_make_0(int l, int i, bool bin, int mode0, int mode1);
+IRunner* c01_make_1(int l, int i, bool bin, int mode0, int mode1);
+IRunner* c01_make_2(int l, int i, bool bin, int mode0, int mode1);
+IRunner* c01_make_3(int l, int i, bool bin, int mode0, int mode1);
 
-static IRunner* make(const std::string& kind, int l, int i, bool bin, int mode) {
-    if (kind == "set") return c01_make_0(l, i, bin, mode);
-    if (kind == "mset") return c01_make_1(l, i, bin, mode);
-    if (kind == "map") return c01_make_2(l, i, bin, mode);
-    if (kind == "mmap") return c01_make_3(l, i, bin, mode);
+static IRunner* make(const std::string& kind, int l, int i, bool bin, int mode, int mode1) {
+    if (kind == "set") return c01_make_0(l, i, bin, mode, mode1);
+    if (kind == "mset") return c01_make_1(l, i, bin, mode, mode1);
+    if (kind == "map") return c01_make_2(l, i, bin, mode, mode1);
+    if (kind == "mmap") return c01_make_3(l, i, bin, mode, mode1);
     return nullptr;
 }
 
@@ -54,11 +54,13 @@ int main(int argc, char** argv) {
             continue;
         }
         if (t[0] == "cfg") {
-            if (cur || t.size() != 6) { vh::answer("bad-op"); continue; }
+            // cfg <kind> <leaf> <inner> <binsearch> <order of register 0> [<order of register 1>]
+            if (cur || (t.size() != 6 && t.size() != 7)) { vh::answer("bad-op"); continue; }
             int l = std::atoi(t[2].c_str()), i = std::atoi(t[3].c_str());
             int bin = std::atoi(t[4].c_str()), mode = std::atoi(t[5].c_str());
-            if (mode < 0 || mode > 2) { vh::answer("bad-op"); continue; }
-            cur = make(t[1], l, i, bin != 0, mode);
+            int mode1 = t.size() == 7 ? std::atoi(t[6].c_str()) : mode;
+            if (mode < 0 || mode > 2 || mode1 < 0 || mode1 > 2) { vh::answer("bad-op"); continue; }
+            cur = make(t[1], l, i, bin != 0, mode, mode1);
             vh::answer(cur ? "cfg" : "bad-op");
             continue;
         }
